@@ -154,6 +154,45 @@ func RunIndex(c *core.Ctx) {
 				return false
 			}
 		}
+		// deterministic part: intersections of ranges that share a bound (both flags on both sides)
+		for _, b := range bounds {
+			if b == nil {
+				continue
+			}
+			lo := gen.Pick(r, bounds)
+			for flags := 0; flags < 16; flags++ {
+				r1 := &index.Range{Start: nil, End: model.DeepCopy(b), StartIncluded: false, EndIncluded: flags&1 != 0}
+				r2 := &index.Range{Start: model.DeepCopy(lo), End: model.DeepCopy(b), StartIncluded: flags&2 != 0, EndIncluded: flags&4 != 0}
+				if flags&8 != 0 {
+					r1, r2 = r2, r1
+				}
+				if !rangeInDomain(r1) || !rangeInDomain(r2) {
+					continue
+				}
+				for _, pair := range [][2]*index.Range{{r1, r2}, {&index.Range{Start: r1.End, End: nil, StartIncluded: r1.EndIncluded}, &index.Range{Start: r2.End, End: model.DeepCopy(gen.Pick(r, bounds)), StartIncluded: r2.EndIncluded, EndIncluded: flags&2 != 0}}} {
+					a, bb := pair[0], pair[1]
+					if !rangeInDomain(a) || !rangeInDomain(bb) {
+						continue
+					}
+					in := a.Intersect(bb)
+					e := &model.Eval{}
+					for _, v := range bounds {
+						if rangeContains(e, a, v) && rangeContains(e, bb, v) && !e.Unspec {
+							if !in.IsEmpty() {
+								if !rangeContains(e, in, v) {
+									c.Violate("range:intersect-excludes", "%s ∩ %s = %s excludes %s which both operands contain", rangeStr(a), rangeStr(bb), rangeStr(in), model.Render(v))
+									return false
+								}
+							} else {
+								c.Violate("range:intersect-excludes", "%s ∩ %s = %s reports IsEmpty although both operands contain %s", rangeStr(a), rangeStr(bb), rangeStr(in), model.Render(v))
+								return false
+							}
+						}
+					}
+					c.Eval(1)
+				}
+			}
+		}
 		nr := 60
 		if c.Thorough() {
 			nr = 150
